@@ -42,6 +42,9 @@ type Case struct {
 	Ops     []Op     `json:"ops"`
 	Scripts []Script `json:"scripts,omitempty"`
 	Ambient int      `json:"ambient,omitempty"` // busmodel.Ambient bits: configuration that must not change the outcome
+	// SharedOpts: one Once()/Async()/Sequential() option value is reused for
+	// every subscription of the history.
+	SharedOpts bool `json:"shared_opts,omitempty"`
 }
 
 type hkey struct {
@@ -283,6 +286,7 @@ func (m *model) apply(o Op, path string) {
 // Implementation run.
 
 type env struct {
+	src     *busmodel.OptSource
 	c       *Case
 	bus     *eventbus.EventBus
 	mainG   uint64
@@ -340,13 +344,13 @@ func (e *env) exec(o Op, path string) {
 	case "sub":
 		var opts []eventbus.SubscribeOption
 		if o.Once {
-			opts = append(opts, eventbus.Once())
+			opts = append(opts, e.src.Once())
 		}
 		if o.Async {
-			opts = append(opts, eventbus.Async())
+			opts = append(opts, e.src.Async())
 		}
 		if o.Seq {
-			opts = append(opts, eventbus.Sequential())
+			opts = append(opts, e.src.Sequential())
 		}
 		if err := t.Sub(e.bus, e, o.Slot, o.Ctx, filterFn(o.Filter), opts...); err != nil {
 			e.fail("%s: subscribe returned %v", path, err)
@@ -420,7 +424,7 @@ func fmtRecs(rs []Rec) string {
 // Run executes the case against a fresh bus and the model.
 func Run(c *Case) (Result, []*vkit.Violation) {
 	m := newModel(c)
-	e := &env{c: c, bus: eventbus.New(busmodel.Ambient(c.Ambient)...), mainG: vkit.Goid(), ran: map[hkey]bool{}, scripts: m.scripts, seqKeys: m.seqKeys}
+	e := &env{src: busmodel.NewOptSource(c.SharedOpts), c: c, bus: eventbus.New(busmodel.Ambient(c.Ambient)...), mainG: vkit.Goid(), ran: map[hkey]bool{}, scripts: m.scripts, seqKeys: m.seqKeys}
 	for i, o := range c.Ops {
 		path := fmt.Sprintf("op%d", i)
 		m.exp = &expectation{query: map[string]queryRes{}, skip: map[string]bool{}}
